@@ -621,6 +621,9 @@ func run(seed int64, n int, dir string, _ []string) {
 
 	// ---------- stream 4: GROUP BY → grouped records → the aggregate evaluation (gagg.go) ----------
 	runGagg(g, o, pr, n)
+
+	// ---------- stream 5: the spelling space of every rung, keys decided by the model alone (spell.go) ----------
+	runSpell(g, o, pr, n)
 }
 
 // idsOfKeys maps the implementation's output rows back to source row ids: the k-th output row must be
